@@ -164,7 +164,7 @@ pub(crate) fn c07_run(threads_form: bool, max_items: u32, do_cut: bool) {
   let kind = if threads_form { 2 - e::choose(2) } else { e::choose(2) };
   let probe = fresh_probe();
   let cut_at: i64 = if do_cut { e::choose(10) as i64 } else { -1 };
-  let by_guard = do_cut && e::choose_bool();
+  let by_guard = if do_cut { e::choose(3) } else { 0 };
   let mut unsub: Option<Box<dyn FnOnce()>> = None;
   let closed_cell: std::rc::Rc<std::cell::RefCell<Option<Box<dyn Fn() -> bool>>>> = Default::default();
   let mut exec_box: Exec;
@@ -178,7 +178,7 @@ pub(crate) fn c07_run(threads_form: bool, max_items: u32, do_cut: bool) {
           *closed_cell.borrow_mut() = Some(Box::new(move || u2.borrow().as_ref().map_or(true, |x| x.is_closed())));
           unsub = Some(Box::new(move || {
             if let Some(u) = u.borrow_mut().take() {
-              if by_guard { drop(u.unsubscribe_when_dropped()) } else { u.unsubscribe() }
+              release(u, by_guard)
             }
           }));
         }
@@ -188,7 +188,7 @@ pub(crate) fn c07_run(threads_form: bool, max_items: u32, do_cut: bool) {
           *closed_cell.borrow_mut() = Some(Box::new(move || u2.borrow().as_ref().map_or(true, |x| x.is_closed())));
           unsub = Some(Box::new(move || {
             if let Some(u) = u.borrow_mut().take() {
-              if by_guard { drop(u.unsubscribe_when_dropped()) } else { u.unsubscribe() }
+              release(u, by_guard)
             }
           }));
         }
@@ -198,7 +198,7 @@ pub(crate) fn c07_run(threads_form: bool, max_items: u32, do_cut: bool) {
           *closed_cell.borrow_mut() = Some(Box::new(move || u2.borrow().as_ref().map_or(true, |x| x.is_closed())));
           unsub = Some(Box::new(move || {
             if let Some(u) = u.borrow_mut().take() {
-              if by_guard { drop(u.unsubscribe_when_dropped()) } else { u.unsubscribe() }
+              release(u, by_guard)
             }
           }));
         }
@@ -208,7 +208,7 @@ pub(crate) fn c07_run(threads_form: bool, max_items: u32, do_cut: bool) {
           *closed_cell.borrow_mut() = Some(Box::new(move || u2.borrow().as_ref().map_or(true, |x| x.is_closed())));
           unsub = Some(Box::new(move || {
             if let Some(u) = u.borrow_mut().take() {
-              if by_guard { drop(u.unsubscribe_when_dropped()) } else { u.unsubscribe() }
+              release(u, by_guard)
             }
           }));
         }
@@ -1501,14 +1501,14 @@ fn c02_sched_more(max_items: u32) {
   let kind = e::choose(2);
   let script = draw_script(max_items, true);
   let probe = fresh_probe();
-  let by_guard = e::choose_bool();
+  let by_guard = e::choose(3);
   let mut unsub: Option<Box<dyn FnOnce()>> = None;
   let mut exec_box: Exec;
   let name;
   macro_rules! keep {
     ($u:expr) => {{
       let u = $u;
-      unsub = Some(Box::new(move || if by_guard { drop(u.unsubscribe_when_dropped()) } else { u.unsubscribe() }));
+      unsub = Some(Box::new(move || release(u, by_guard)));
     }};
   }
   let usize_to_val = |n: usize| Val::c(n as i64);
